@@ -1,5 +1,7 @@
 package main
 
+import "fmt"
+
 // Registry: which harness runs decide which property at which tier.
 
 func b2i(b bool) int64 {
@@ -123,6 +125,9 @@ func init() {
 			p.Quick = append(p.Quick, HRun{Entry: "HarnessC01Decoders", Args: []int64{int64(w), vl}, Bound: "one YAML node: symbolic kind, tag text (lengths 0,5,6,7,8,11), style bits, value bytes, 0-2 children of the same shape", Require: []string{"returned"}})
 		}
 		p.Quick = append(p.Quick, HRun{Entry: "HarnessC01Sweep", Args: []int64{0, 0}, Bound: "every node position of the full skeleton x symbolic kind/tag x 2 texts x {no children, original children}; parser only", Require: []string{"returned"}})
+		p.Quick = append(p.Quick, HRun{Entry: "HarnessC01RunScript", Bound: "5 workflow-command scripts x all 2^n letter-case spellings, all in-process rules incl. deprecated-commands (regexp submatches on symbolic text)", Require: []string{"returned"}})
+		p.Quick = append(p.Quick, HRun{Entry: "HarnessC19Relations", Args: []int64{1, 1}, Bound: "matrix value comparison on all pairs of value trees of depth <= 1 (no panic)", Require: []string{"compared"}})
+		p.Quick = append(p.Quick, HRun{Entry: "HarnessC19Rule", Args: []int64{1, 1}, Bound: "matrix rule on rows / exclude / include built from value trees (no panic)", Require: []string{"rows"}})
 		p.Quick = append(p.Quick, HRun{Entry: "HarnessC01Render", Args: []int64{3}, Bound: "64-bit symbolic line and column, all sources of 3 bytes", Require: []string{"printed"}})
 		for L := 0; L <= 4; L++ {
 			p.Thorough = append(p.Thorough, HRun{Entry: "HarnessC01Expr", Args: []int64{int64(L), 1}, Bound: "lexer+parser+semantic checker on all 256^L byte strings of length L followed by }}"})
@@ -133,6 +138,9 @@ func init() {
 			p.Thorough = append(p.Thorough, HRun{Entry: "HarnessC01Decoders", Args: []int64{int64(w), 3}, Bound: "one YAML node: symbolic kind, tag text, style bits, 3 value bytes, 0-2 children", Require: []string{"returned"}})
 		}
 		p.Thorough = append(p.Thorough, HRun{Entry: "HarnessC01Sweep", Args: []int64{1, 0}, Bound: "every node position x symbolic kind/tag x 2 texts x 2 child configurations; parser and all in-process rules", Require: []string{"returned"}})
+		p.Thorough = append(p.Thorough, HRun{Entry: "HarnessC01RunScript", Bound: "workflow-command scripts in all letter cases", Require: []string{"returned"}})
+		p.Thorough = append(p.Thorough, HRun{Entry: "HarnessC19Relations", Args: []int64{2, 1}, Bound: "matrix value comparison, depth 2 vs 1 (no panic)", Require: []string{"compared"}})
+		p.Thorough = append(p.Thorough, HRun{Entry: "HarnessC19Rule", Args: []int64{2, 1}, Bound: "matrix rule, depth 2 vs 1 (no panic)", Require: []string{"rows"}})
 		p.Thorough = append(p.Thorough, HRun{Entry: "HarnessC01Render", Args: []int64{5}, Bound: "64-bit symbolic line and column, all sources of 5 bytes", Require: []string{"printed"}})
 		props["C01"] = p
 	}
@@ -140,7 +148,8 @@ func init() {
 	{
 		p := &Prop{ID: "C04", Outside: []string{
 			"token sequences longer than the bound; integer literals outside int32 (rejected by ParseInt, by design)",
-			"byte-level lexing is decided separately (lexer harness); identifiers other than the placeholder spelling",
+			"byte strings longer than the lexer bound; bytes NUL and >= 0x80 are unspecified by the documentation (only token text/offset consistency is demanded there)",
+			"identifiers other than the placeholder spelling in the token-level harness",
 			"message text (token kind names are stubbed in this harness)",
 		}}
 		for N := 0; N <= 5; N++ {
@@ -148,6 +157,13 @@ func init() {
 		}
 		for N := 0; N <= 6; N++ {
 			p.Thorough = append(p.Thorough, HRun{Entry: "HarnessC04Parse", Args: []int64{int64(N)}, Bound: "all 20^N token-kind sequences of length N followed by END"})
+		}
+		lexB := "every byte string of length %d (256^%d, symbolic bytes) followed by }}: lexer vs reference lexical grammar, maximal munch, whitespace interleaving"
+		for L := 0; L <= 3; L++ {
+			p.Quick = append(p.Quick, HRun{Entry: "HarnessC04Lex", Args: []int64{int64(L)}, Bound: fmt.Sprintf(lexB, L, L)})
+		}
+		for L := 0; L <= 4; L++ {
+			p.Thorough = append(p.Thorough, HRun{Entry: "HarnessC04Lex", Args: []int64{int64(L)}, Bound: fmt.Sprintf(lexB, L, L)})
 		}
 		props["C04"] = p
 	}
